@@ -679,6 +679,171 @@ Proof.
 Qed.
 
 (* ------------------------------------------------------------------ *)
+(* the value of a sum, for arbitrary rationals *)
+
+Definition ratZ (q : brat) : Z := if rneg q then (- Z.of_N (nval q))%Z else Z.of_N (nval q).
+
+Lemma ratZ_neg : forall q, ratZ (rat_neg q) = (- ratZ q)%Z.
+Proof. intro q. unfold ratZ, rat_neg, nval. cbn [rneg rnum]. destruct (rneg q); cbn [negb]; lia. Qed.
+
+Lemma gcd_parts : forall x y, x <> 0 ->
+  exists g kx ky, N.gcd x y = g /\ g <> 0 /\ x = kx * g /\ y = ky * g /\ x * y / g = kx * ky * g /\
+                  (forall n, n * y / g = n * ky) /\ (forall n, n * x / g = n * kx).
+Proof.
+  intros x y Hx. set (g := N.gcd x y).
+  assert (Hg : g <> 0) by (unfold g; intro H0; apply N.gcd_eq_0_l in H0; contradiction).
+  destruct (N.gcd_divide_l x y) as [kx Kx]. destruct (N.gcd_divide_r x y) as [ky Ky]. fold g in Kx, Ky.
+  exists g, kx, ky. repeat split; try assumption.
+  - rewrite Kx at 1. rewrite Ky at 1.
+    replace (kx * g * (ky * g)) with (kx * ky * g * g) by lia. apply N.div_mul; assumption.
+  - intro n. rewrite Ky at 1. replace (n * (ky * g)) with (n * ky * g) by lia. apply N.div_mul; assumption.
+  - intro n. rewrite Kx at 1. replace (n * (kx * g)) with (n * kx * g) by lia. apply N.div_mul; assumption.
+Qed.
+
+Lemma add_pos_value : forall a b, rneg a = false -> wf (rden a) = true -> dval a <> 0 -> dval b <> 0 ->
+  rat_wf (add_pos a b) = true /\
+  (ratZ (add_pos a b) * (Z.of_N (dval a) * Z.of_N (dval b)) =
+   (ratZ a * Z.of_N (dval b) + ratZ b * Z.of_N (dval a)) * Z.of_N (dval (add_pos a b)))%Z.
+Proof.
+  intros a b Ha Wd Da Db. unfold add_pos.
+  set (an := nval a). set (ad := dval a). set (bn := nval b). set (bd := dval b).
+  assert (Za : ratZ a = Z.of_N an) by (unfold ratZ; rewrite Ha; reflexivity).
+  assert (Zb : ratZ b = if rneg b then (- Z.of_N bn)%Z else Z.of_N bn) by reflexivity.
+  rewrite Za, Zb.
+  destruct (N.eqb_spec ad bd) as [Ed|Ed].
+  - rewrite <- Ed.
+    assert (Hwf1 : forall sg v, rat_wf (mkrat sg (of_N v) (rden a)) = true).
+    { intros sg v. unfold rat_wf, dval. cbn [rnum rden]. rewrite wf_of_N, Wd.
+      assert (Hx : (dval a =? 0) = false) by lia. unfold dval in Hx. rewrite Hx. reflexivity. }
+    assert (HZ1 : forall sg v, ratZ (mkrat sg (of_N v) (rden a)) = if sg then (- Z.of_N v)%Z else Z.of_N v).
+    { intros sg v. unfold ratZ, nval. cbn [rneg rnum]. rewrite val_of_N. reflexivity. }
+    assert (HD1 : forall sg v, dval (mkrat sg (of_N v) (rden a)) = ad) by reflexivity.
+    destruct (rneg b); cbn [andb].
+    + destruct (N.ltb_spec an bn) as [Hl|Hl].
+      * split; [apply Hwf1|]. rewrite HZ1, HD1. rewrite N2Z.inj_sub by lia. lia.
+      * split; [apply Hwf1|]. rewrite HZ1, HD1. rewrite N2Z.inj_sub by lia. lia.
+    + split; [apply Hwf1|]. rewrite HZ1, HD1. rewrite N2Z.inj_add. lia.
+  - destruct (gcd_parts ad bd Da) as [g [ka [kb [Eg [Hg [Ka [Kb [End [Ex Ey]]]]]]]]].
+    rewrite Eg, End, (Ex an), (Ey bn).
+    assert (Hka : ka <> 0) by (intro; subst ka; lia).
+    assert (Hkb : kb <> 0) by (intro; subst kb; unfold bd in *; lia).
+    assert (Hnd : ka * kb * g <> 0) by nia.
+    assert (Hwf : forall sg v, rat_wf (mkrat sg (of_N v) (of_N (ka * kb * g))) = true).
+    { intros sg v. unfold rat_wf, dval. cbn [rnum rden]. rewrite !wf_of_N, val_of_N.
+      assert ((ka * kb * g =? 0) = false) as -> by lia. reflexivity. }
+    assert (HZ : forall sg v, ratZ (mkrat sg (of_N v) (of_N (ka * kb * g))) = if sg then (- Z.of_N v)%Z else Z.of_N v).
+    { intros sg v. unfold ratZ, nval. cbn [rneg rnum]. rewrite val_of_N. reflexivity. }
+    assert (HD : forall sg v, dval (mkrat sg (of_N v) (of_N (ka * kb * g))) = ka * kb * g).
+    { intros sg v. unfold dval. cbn [rden]. apply val_of_N. }
+    set (A := Z.of_N an). set (Bn := Z.of_N bn).
+    set (G := Z.of_N g). set (KA := Z.of_N ka). set (KB := Z.of_N kb).
+    assert (EA : Z.of_N ad = (KA * G)%Z) by (unfold KA, G; lia).
+    assert (EB : Z.of_N bd = (KB * G)%Z) by (unfold KB, G; lia).
+    destruct (rneg b); cbn [andb].
+    + destruct (N.ltb_spec (an * kb) (bn * ka)) as [Hl|Hl].
+      * split; [apply Hwf|]. rewrite HZ, HD, EA, EB.
+        rewrite N2Z.inj_sub by lia. rewrite !N2Z.inj_mul. fold A Bn G KA KB. ring.
+      * split; [apply Hwf|]. rewrite HZ, HD, EA, EB.
+        rewrite N2Z.inj_sub by lia. rewrite !N2Z.inj_mul. fold A Bn G KA KB. ring.
+    + split; [apply Hwf|]. rewrite HZ, HD, EA, EB.
+      rewrite N2Z.inj_add. rewrite !N2Z.inj_mul. fold A Bn G KA KB. ring.
+Qed.
+
+Lemma rat_add_value : forall a b, rat_wf a = true -> rat_wf b = true ->
+  rat_wf (rat_add a b) = true /\
+  (ratZ (rat_add a b) * (Z.of_N (dval a) * Z.of_N (dval b)) =
+   (ratZ a * Z.of_N (dval b) + ratZ b * Z.of_N (dval a)) * Z.of_N (dval (rat_add a b)))%Z.
+Proof.
+  intros a b Wa Wb.
+  apply rat_wf_parts in Wa. destruct Wa as [_ [Wa2 Da]].
+  apply rat_wf_parts in Wb. destruct Wb as [_ [_ Db]].
+  unfold rat_add. destruct (rneg a) eqn:Ea.
+  - destruct (add_pos_value (rat_neg a) (rat_neg b)) as [Hw Hv]; try assumption.
+    { unfold rat_neg. cbn [rneg]. rewrite Ea. reflexivity. }
+    set (r := add_pos (rat_neg a) (rat_neg b)) in *.
+    split.
+    + unfold rat_wf, rat_neg, dval in *. cbn [rnum rden] in *. assumption.
+    + rewrite !ratZ_neg in Hv. rewrite ratZ_neg.
+      change (dval (rat_neg r)) with (dval r).
+      change (dval (rat_neg a)) with (dval a) in Hv. change (dval (rat_neg b)) with (dval b) in Hv.
+      lia.
+  - apply add_pos_value; assumption.
+Qed.
+
+(* if a and a - b are integers, so is b *)
+Lemma sub_integral : forall a b, rat_wf a = true -> rat_wf b = true ->
+  N.divide (dval a) (nval a) -> N.divide (dval (rat_add a (rat_neg b))) (nval (rat_add a (rat_neg b))) ->
+  N.divide (dval b) (nval b).
+Proof.
+  intros a b Wa Wb [ka Ka] [kr Kr].
+  assert (Wnb : rat_wf (rat_neg b) = true) by exact Wb.
+  destruct (rat_add_value a (rat_neg b) Wa Wnb) as [Wr Hv].
+  set (r := rat_add a (rat_neg b)) in *.
+  rewrite ratZ_neg in Hv. change (dval (rat_neg b)) with (dval b) in Hv.
+  apply rat_wf_parts in Wa. destruct Wa as [_ [_ Da]].
+  apply rat_wf_parts in Wb. destruct Wb as [_ [_ Db]].
+  apply rat_wf_parts in Wr. destruct Wr as [_ [_ Dr]].
+  set (da := Z.of_N (dval a)) in *. set (db := Z.of_N (dval b)) in *. set (dr := Z.of_N (dval r)) in *.
+  assert (Hda : (0 < da)%Z) by (unfold da; lia). assert (Hdb : (0 < db)%Z) by (unfold db; lia).
+  assert (Hdr : (0 < dr)%Z) by (unfold dr; lia).
+  assert (Ea : exists za, ratZ a = (za * da)%Z).
+  { unfold ratZ. rewrite Ka. destruct (rneg a); [exists (- Z.of_N ka)%Z|exists (Z.of_N ka)]; unfold da; lia. }
+  assert (Er : exists zr, ratZ r = (zr * dr)%Z).
+  { unfold ratZ. rewrite Kr. destruct (rneg r); [exists (- Z.of_N kr)%Z|exists (Z.of_N kr)]; unfold dr; lia. }
+  destruct Ea as [za Ea]. destruct Er as [zr Er]. rewrite Ea, Er in Hv.
+  assert (Hb : ratZ b = ((za - zr) * db)%Z).
+  { assert (H : (dr * da * (zr * db) = dr * da * (za * db - ratZ b))%Z) by lia.
+    apply Z.mul_reg_l in H; [lia|]. nia. }
+  exists (Z.to_N (Z.abs (za - zr))).
+  assert (Hn : Z.of_N (nval b) = Z.abs (ratZ b)) by (unfold ratZ; destruct (rneg b); lia).
+  rewrite Hb, Z.abs_mul in Hn. rewrite (Z.abs_eq db) in Hn by lia.
+  unfold db in Hn. lia.
+Qed.
+
+Lemma known_npr_of_negative_integer : forall b, rat_wf b = true ->
+  N.divide (dval b) (nval b) -> rneg b = true -> nval b <> 0 -> known_C10_npr_negative_r b = true.
+Proof.
+  intros b Wb Hdiv Hneg Hnz. unfold known_C10_npr_negative_r.
+  destruct (simplify_ok b Wb) as [s [Es [Hs [Hv [Hd Hiff]]]]]. rewrite Es.
+  apply Hiff in Hdiv. rewrite Hdiv, Hs, Hneg. change (1 =? 1) with true. cbn [andb].
+  apply negb_true_iff, N.eqb_neq. intro H0. rewrite H0, Hdiv in Hv.
+  apply rat_wf_parts in Wb. lia.
+Qed.
+
+Lemma npr_domain_except_known_lemma : forall a b, rat_wf a = true -> rat_wf b = true ->
+  ~ denotes_nat b -> known_C10_npr_negative_r b = false -> is_err (q_permutation a b).
+Proof.
+  intros a b Wa Wb Hbad Hk.
+  (* b is not integral: otherwise it is a negative integer, which is the known class *)
+  assert (Hfrac : ~ N.divide (dval b) (nval b)).
+  { intro Hdiv. destruct (rneg b) eqn:Eb.
+    - destruct (N.eq_dec (nval b) 0) as [E0|E0].
+      + apply Hbad. split; [assumption|right; assumption].
+      + rewrite (known_npr_of_negative_integer b Wb Hdiv Eb E0) in Hk. discriminate.
+    - apply Hbad. split; [assumption|left; assumption]. }
+  unfold q_permutation.
+  destruct (q_factorial a) as [x|e|k] eqn:Ef; cbn [bind]; [|eexists; reflexivity|exfalso; exact (q_factorial_no_panic a Wa k Ef)].
+  (* a is a natural number *)
+  assert (Ha : N.divide (dval a) (nval a)).
+  { destruct (simplify_ok a Wa) as [s [Es [_ [_ [_ Hiff]]]]].
+    unfold q_factorial, apply_uint_op in Ef. rewrite Es in Ef. cbn [bind] in Ef.
+    destruct (N.eqb_spec (dval s) 1) as [D1|D1]; cbn [negb] in Ef; [|discriminate].
+    apply Hiff. assumption. }
+  apply bind_err. apply q_factorial_domain.
+  - apply rat_add_value; assumption.
+  - intros [Hdiv _]. apply Hfrac. exact (sub_integral a b Wa Wb Ha Hdiv).
+Qed.
+
+Lemma npr_domain_refuted_lemma : exists a b q, rat_wf a = true /\ rat_wf b = true /\
+  ~ denotes_nat b /\ q_permutation a b = Ok q.
+Proof.
+  exists (mkrat false (Small 5) (Small 1)), (mkrat true (Small 1) (Small 1)).
+  eexists. split; [reflexivity|]. split; [reflexivity|]. split.
+  - intros [_ [H|H]]; discriminate.
+  - vm_compute. reflexivity.
+Qed.
+
+(* ------------------------------------------------------------------ *)
 (* summary statements used by Properties/C10.v *)
 
 Lemma domain_errors_lemma : forall q, rat_wf q = true -> ~ denotes_nat q ->
